@@ -42,6 +42,7 @@ def menu(d):
     M["scalar-var"] = H + "\nfloat x = {a}*{alpha}\nG(x, {b}) | 0\n"
     M["whole-array"] = H + "\nfloat array A[2, 2] =\n    {P}\nG({a}) | 0\n"
     M["tdm"] = H + "type tdm (temporal_modes=2)\n\nfloat array p0 =\n    0.5, 1.5\nint array p1 =\n    1, 2\nG(p0, {a}+{alpha}) | 0\nH(p1) | 1\n"
+    M["tdm-loop-vars"] = H + "type tdm (temporal_modes=3)\n\nfloat array p3 =\n    0.1, 0.2\nfloat alpha = 0.5\nint array p1 =\n    1, 2\nfloat array p0 =\n    3.5, 4.5\nint n = 2\nfloat array p2 =\n    5.5, 6.5\nfor int i in 0:2\n    G(p0, alpha) | i\nH(p1, p2, p3) | n\n"
     M["loop"] = H + "\nfor int i in 0:3\n    G({a}*i+{b}, q0-q1) | i\n"
     M["modes-1-8"] = H + "\nG | [8, 1]\nH({a}-{b}) | [17, 0, 9]\n"
     M["include-2-modes"] = H + 'include "%s"\n\nSub(x=1, y=2) | [3, 4]\nSub(x=2, y=1) | [9, 0]\n' % os.path.join(d, "sub.xbb")
